@@ -153,6 +153,7 @@ void LVCalc(matrix *X,
   size_t loop;
   size_t start;
   size_t ntried;
+  double ssx = 0.f;
   int null_lv = 0;
   double mod_p_old;
   double dot_q;
@@ -226,7 +227,22 @@ void LVCalc(matrix *X,
     dot_u = DVectorDVectorDotProd(u_, u_);
     dot_w = DVectorDVectorDotProd(w_, w_);
 
-    if(dot_u == 0.f || dot_w == 0.f || _isnan_(dot_u) || _isnan_(dot_w)){
+    if(loop == 0 && ntried == 0){
+      /* sum of squares of the X block this latent variable is extracted from */
+      ssx = 0.f;
+      for(i = 0; i < X_->row; i++){
+        for(j = 0; j < X_->col; j++){
+          ssx += square(X_->data[i][j]);
+        }
+      }
+    }
+
+    /* |u'X|^2 <= |X|^2 |u|^2: when the two sides differ by 26 orders of magnitude
+     * u is orthogonal to X up to rounding (the covariance between the blocks is
+     * exhausted, e.g. after the first latent variable of an orthogonal design) and
+     * what is left of u'X is residue, not a direction.
+     */
+    if(dot_u == 0.f || dot_w <= 1e-26*ssx*dot_u || _isnan_(dot_u) || _isnan_(dot_w)){
       /* Null latent variable: u'X is the zero vector (constant response, X or Y
        * completely deflated, more latent variables requested than available).
        * w = u'X/u'u normalised would be 0/0 and the convergence test could never
